@@ -111,6 +111,26 @@ Theorem controller_refines_fresh : forall (V : Type) (dflt : V) (h : nat -> list
   final V dflt g s = nth (length g - 1) (cfresh V dflt h g (spec_asg V asg ops)) dflt.
 Proof. exact ctl_refines_fresh. Qed.
 
+(** rule export -> import (Setting.get_param_rule_dict -> set_param_rule ->
+    assign_all, one scope): the imported setting IS the exported one, for every
+    constant, every free numeric setting with lower <= value <= upper — values
+    exactly 0 or exactly on a bound included — and every non-scalar setting,
+    whatever the target function currently holds *)
+Theorem rules_roundtrip_setting : forall (V : Type) (ltb : V -> V -> bool) (truthy : V -> bool) (dlower dupper : V)
+    numeric c s,
+  valid_setting V ltb numeric s ->
+  import V ltb truthy dlower dupper numeric c (export V s) = ROk V s.
+Proof. exact import_export_id. Qed.
+
+Theorem rules_export_keeps_every_key : forall (V : Type) (s : setting V),
+  rule_keys V (export V s) =
+  match s with
+  | SConst _ _ => [true; true; false; false; false]
+  | SVar _ _ _ _ => [false; false; true; true; true]
+  | SNVar _ _ => [false; false; true; false; false]
+  end.
+Proof. exact export_keys. Qed.
+
 (** the faithful model of updates_postponed WITHOUT try/finally VIOLATES "every
     history ends in the fresh value": a block that raises after an assignment
     leaves _update_suspended set, and a later plain assignment is not
